@@ -18,7 +18,7 @@ ID = "C11"
 LEVEL = "exploration"
 TIERS = {
   "quick": {"runs": 128, "chunk": 8, "budget_s": 480, "timeout_s": 300},
-  "thorough": {"runs": 3200, "chunk": 16, "budget_s": 3300, "timeout_s": 300},
+  "thorough": {"runs": 512, "chunk": 8, "budget_s": 1800, "timeout_s": 300},
 }
 RULE = ("one evaluation = one op (step or forward) executed under a non-ascending schedule and compared with its ascending twin from the same "
         "state; runs are generated from (seed, index): model, options, nworld 1..4, probe points of a seeded history, schedule mode in {DESC, "
